@@ -26,7 +26,8 @@ META = {
         "call time). Decides these structural clauses, not which of two "
         "overlapping matches finditer prefers on arbitrary text."
         ' Also: lock-down of default_ns/default_ew/ocr_scrub (guard asks about the argument; attribute not read again), an omitted default falls back to MasterConfig.<p> (not a frozen constant), the settings are known to Config, sub_scrubber replaces by position.'
-        " Round 7: the OCR pattern's N/S group is mandatory while the number class contains 'S'; Twp/Rge negatives on section lists; the config word dispatch sends layout names to .layout (not to a direction); PLSSDesc.parse feeds the parser the original text."),
+        " Round 7: the OCR pattern's N/S group is mandatory while the number class contains 'S'; Twp/Rge negatives on section lists; the config word dispatch sends layout names to .layout (not to a direction); PLSSDesc.parse feeds the parser the original text."
+        ' Round 8: whoever reads `rgenum` reads its alternative `rgenum_edgecase_rge2` (exclusive groups from the branch structure); the list of Twp/Rges present before scrubbing is not padded.'),
     'assumptions': [
         "zero-width assertions are epsilon in the inclusion test (the repo "
         "regex is over-approximated, so a reported counterexample is a true "
@@ -489,6 +490,23 @@ def _fixed_twprge(ctx):
         ctx.ok('WARN', 'plss_preprocess: fixed Twp/Rges', 'one occurrence removed per original Twp/Rge (multiset difference)')
     else:
         ctx.undecided('WARN', 'plss_preprocess: fixed Twp/Rges', 'computation not recognised')
+    # the "before" list holds what the complete-Twp/Rge pattern finds in the text as given - nothing
+    # that a scrubber pattern (which COMPLETES missing directions) produces is added to it
+    before_names = {norm(a.targets[0]) for a in walk_local(fp.node) if isinstance(a, ast.Assign) and isinstance(a.value, ast.Call)
+                    and dotted(a.value.func) == 'find_twprge' and isinstance(a.targets[0], ast.Name) and 'orig' in a.targets[0].id}
+    for c in walk_local(fp.node):
+        tgt = None
+        if isinstance(c, ast.Call) and isinstance(c.func, ast.Attribute) and c.func.attr in ('extend', 'append', 'insert') \
+                and norm(c.func.value) in before_names:
+            tgt = norm(c.func.value)
+        elif isinstance(c, ast.AugAssign) and norm(c.target) in before_names:
+            tgt = norm(c.target)
+        if tgt:
+            ctx.violation('WARN', 'plss_preprocess: the list of Twp/Rges present before scrubbing is not padded',
+                          f"`{norm(c)[:80]}` adds entries to `{tgt}`: every Twp/Rge in that list cancels one found after scrubbing, so a "
+                          f"Twp/Rge whose direction WAS filled in from the default is no longer reported whenever the added "
+                          f"pattern also reads it (or a fully written twin of it) - the fixed_twprge warning is lost",
+                          key="WARN|plss_preprocess|orig-padded", where=common.loc(fp, c))
     # both find_twprge probes are there (before and after scrubbing)
     probes = [c for c in walk_local(fp.node) if isinstance(c, ast.Call) and (dotted(c.func) or '') == 'find_twprge']
     ctx.shape(len(probes) >= 2, 'WARN', 'plss_preprocess probes Twp/Rges before and after scrubbing')
